@@ -127,4 +127,12 @@ WellFormed(t) ==
          /\ \A i \in DOMAIN t.vars : FieldsOk(t.vars[i], ~t.sized)
          /\ (~t.sized => ~IsCLike(t))
          /\ (t.dflt > 0 => t.dflt \in DOMAIN t.vars /\ t.vars[t.dflt] = <<>>)
+\* what the macro may accept: well-formed, and a definition declared portable has only portable fields
+RECURSIVE Acceptable(_)
+Acceptable(t) ==
+  /\ WellFormed(t)
+  /\ CASE t.k = "struct" -> (\A i \in DOMAIN t.fields : Acceptable(t.fields[i])) /\ (t.portable => AllPortable(t.fields))
+       [] t.k = "enum" -> \A i \in DOMAIN t.vars : (\A j \in DOMAIN t.vars[i] : Acceptable(t.vars[i][j])) /\ (t.portable => AllPortable(t.vars[i]))
+       [] t.k \in {"arr", "vec", "flex"} -> Acceptable(t.elem[1])
+       [] OTHER -> TRUE
 =============================================================================
